@@ -25,6 +25,7 @@ def Ty.hashEq : Ty → Ty → Bool
   | .union as, .union bs => Ty.hashEqList as bs
   | .subclass c, .subclass d => c == d
   | .annotated a, .annotated b => Ty.hashEq a b
+  | .tvar i, .tvar j => i == j
   | _, _ => false
 def Ty.hashEqList : List Ty → List Ty → Bool
   | [], [] => true
@@ -64,5 +65,45 @@ def unite (vs : List Ty) : Ty :=
 
 /-- `MultiValuedValue(vs)`: flattens, no de-duplication. -/
 def mkUnion (vs : List Ty) : Ty := .union (vs.flatMap flatten1)
+
+/-! ### `substitute_typevars` (value.py: one clause per class)
+
+`TypeVarValue` :2181 looks the variable up; `GenericValue` :1146 / `SequenceValue` :1258 /
+`AnnotatedValue` :2593 rebuild themselves around the substituted parts; `MultiValuedValue` :1985
+returns itself when it has no members or the map is empty and otherwise re-runs the flattening
+constructor (no de-duplication); every other class returns itself. -/
+
+abbrev TvMap := List (Nat × Ty)
+
+def TvMap.get (m : TvMap) (i : Nat) : Option Ty := (m.find? (·.1 == i)).map (·.2)
+
+mutual
+def subst (m : TvMap) : Ty → Ty
+  | .tvar i => (m.get i).getD (.tvar i)
+  | .generic c as => .generic c (substL m as)
+  | .seq c ms => .seq c (substL m ms)
+  | .many t => .many (subst m t)
+  | .union ts => if ts.isEmpty || m.isEmpty then .union ts else mkUnion (substL m ts)
+  | .annotated t => .annotated (subst m t)
+  | t => t
+def substL (m : TvMap) : List Ty → List Ty
+  | [] => []
+  | t :: ts => subst m t :: substL m ts
+end
+
+mutual
+/-- the type variables occurring in a term -/
+def Ty.tvars : Ty → List Nat
+  | .tvar i => [i]
+  | .generic _ as => Ty.tvarsL as
+  | .seq _ ms => Ty.tvarsL ms
+  | .many t => Ty.tvars t
+  | .union ts => Ty.tvarsL ts
+  | .annotated t => Ty.tvars t
+  | _ => []
+def Ty.tvarsL : List Ty → List Nat
+  | [] => []
+  | t :: ts => Ty.tvars t ++ Ty.tvarsL ts
+end
 
 end Pya
